@@ -73,12 +73,52 @@ func runC09(p *Program, e *Engine, r *Result, tier string) {
 	entryPath := strings.TrimSuffix(watchLit.A.Subj, "")
 	_, pathF := tf.watchFields()
 	ops := collectTableOps(a, tf, w)
+	c09Cleanup(a, tf, hctx, entry, *watchLit, entryPath, maskSubj, ops, "C09.1")
+	c09MoveSelf(a, df, tf, hv, hctx, entry, *watchLit, entryPath, maskSubj, "C09.2")
+	// (3) duplicate suppression consults Dir(watch.path)
+	sup := false
+	for _, v := range hv {
+		r, ok := v.Instr.(*ssa.Return)
+		if !ok || v.Ctx != hctx || len(r.Results) == 0 || !zeroEvent(v.Ctx, r.Results[0]) {
+			continue
+		}
+		for _, c := range v.Cond {
+			for _, l := range c {
+				if l.A.Kind == AkOk && !l.Neg && lookupInTable(l.A, []*types.Var{tf.pathTable}) &&
+					strings.Contains(stripIDs(l.A.Subj), "filepath.Dir("+stripIDs(entryPath)+"."+pathF+")") {
+					if c.has(func(x Lit) bool { return isBitLit(x, "IN_DELETE_SELF", a) }) {
+						sup = true
+					}
+				}
+			}
+		}
+	}
+	a.R.ob("C09.3", "delete-self:parent-lookup", "the duplicate Remove of a deleted watched path is suppressed exactly when the parent directory of this watch's path is in the path table", a.P.pos(df.Handler.Pos()), sup,
+		"an empty-event return under IN_DELETE_SELF ∧ ok(pathTable[Dir(watch.path)])")
+	// every other suppression of an event is one of the enumerated reasons (shared with C01.3)
+	c01Drops(a, df, "C09.3")
+	// (4) fresh entry on re-Add: shared with C12.1; a stale entry is released first (shared with C04.7)
+	c04Replace(a, tf, ro.API["AddWith"], "C09.4")
+	c12Acquire(a, tf, ro.API["AddWith"])
+	for i := range a.R.Obligations {
+		if a.R.Obligations[i].Rule == "C12.1" {
+			a.R.Obligations[i].Rule = "C09.4"
+			a.R.Obligations[i].Key = "C09.4|" + strings.TrimPrefix(a.R.Obligations[i].Key, "C12.1|")
+		}
+	}
+}
+
+// c09MoveSelf: a record with IN_MOVE_SELF for a known non-recursive watch ends the watch through the removal function
+// the API Remove uses (tables and inotify_rm_watch), for this watch's own path.
+func c09MoveSelf(a *An, df *DecodeFacts, tf *tableFacts, hv []*Visit, hctx *Ctx, entry DNF, wl Lit, entryPath, maskSubj, rule string) {
+	ro := a.Ro
+	watchLit := &wl
+	_, pathF := tf.watchFields()
 	bit := func(name string) Lit {
 		k, _ := unixConst(a, name)
 		return Lit{A: &Atom{Kind: AkBit, Subj: maskSubj, Bits: k}}
 	}
 	not := func(l Lit) Lit { l.Neg = !l.Neg; return l }
-	c09Cleanup(a, tf, hctx, entry, *watchLit, entryPath, maskSubj, ops, "C09.1")
 	// (2) MOVE_SELF: the handler (directly or through a helper) calls a function that the API Remove also uses and that
 	// reaches both table deletes and inotify_rm_watch
 	rmAPI := ro.API["Remove"]
@@ -153,44 +193,13 @@ func runC09(p *Program, e *Engine, r *Result, tier string) {
 		if !h {
 			wit = "the watch is not removed when " + stripIDs(ctr)
 		}
-		a.R.ob("C09.2", "move-self:removes-watch", "a record with IN_MOVE_SELF for a known non-recursive watch calls the removal function Remove uses (tables and inotify_rm_watch)", a.P.instrPos(call), h, wit)
+		a.R.ob(rule, "move-self:removes-watch", "a record with IN_MOVE_SELF for a known non-recursive watch calls the removal function Remove uses (tables and inotify_rm_watch)", a.P.instrPos(call), h, wit)
 		arg := stripIDs(v.Ctx.path(call.Call.Args[len(call.Call.Args)-1]))
-		a.R.ob("C09.2", "move-self:own-path", "that removal is for the path of this record's watch", a.P.instrPos(call), arg == stripIDs(entryPath)+"."+pathF, "argument: "+tail(arg, 100))
+		a.R.ob(rule, "move-self:own-path", "that removal is for the path of this record's watch", a.P.instrPos(call), arg == stripIDs(entryPath)+"."+pathF, "argument: "+tail(arg, 100))
 	}
 	if !found {
-		a.R.ob("C09.2", "move-self:removes-watch", "a record with IN_MOVE_SELF for a known non-recursive watch calls the removal function Remove uses (tables and inotify_rm_watch)", a.P.pos(df.Handler.Pos()), false,
+		a.R.ob(rule, "move-self:removes-watch", "a record with IN_MOVE_SELF for a known non-recursive watch calls the removal function Remove uses (tables and inotify_rm_watch)", a.P.pos(df.Handler.Pos()), false,
 			"below the handler no function is called that the API Remove also uses and that reaches both table deletes and inotify_rm_watch")
-	}
-	// (3) duplicate suppression consults Dir(watch.path)
-	sup := false
-	for _, v := range hv {
-		r, ok := v.Instr.(*ssa.Return)
-		if !ok || v.Ctx != hctx || len(r.Results) == 0 || !zeroEvent(v.Ctx, r.Results[0]) {
-			continue
-		}
-		for _, c := range v.Cond {
-			for _, l := range c {
-				if l.A.Kind == AkOk && !l.Neg && lookupInTable(l.A, []*types.Var{tf.pathTable}) &&
-					strings.Contains(stripIDs(l.A.Subj), "filepath.Dir("+stripIDs(entryPath)+"."+pathF+")") {
-					if c.has(func(x Lit) bool { return isBitLit(x, "IN_DELETE_SELF", a) }) {
-						sup = true
-					}
-				}
-			}
-		}
-	}
-	a.R.ob("C09.3", "delete-self:parent-lookup", "the duplicate Remove of a deleted watched path is suppressed exactly when the parent directory of this watch's path is in the path table", a.P.pos(df.Handler.Pos()), sup,
-		"an empty-event return under IN_DELETE_SELF ∧ ok(pathTable[Dir(watch.path)])")
-	// every other suppression of an event is one of the enumerated reasons (shared with C01.3)
-	c01Drops(a, df, "C09.3")
-	// (4) fresh entry on re-Add: shared with C12.1; a stale entry is released first (shared with C04.7)
-	c04Replace(a, tf, ro.API["AddWith"], "C09.4")
-	c12Acquire(a, tf, ro.API["AddWith"])
-	for i := range a.R.Obligations {
-		if a.R.Obligations[i].Rule == "C12.1" {
-			a.R.Obligations[i].Rule = "C09.4"
-			a.R.Obligations[i].Key = "C09.4|" + strings.TrimPrefix(a.R.Obligations[i].Key, "C12.1|")
-		}
 	}
 }
 
